@@ -142,7 +142,7 @@ func dEntries(c *Ctx) []*ssa.Function {
 func callsDeep(c *Ctx, f *ssa.Function, depth int) []ssa.CallInstruction {
 	var out []ssa.CallInstruction
 	for _, ci := range calls(f) {
-		if sc := ci.Common().StaticCallee(); sc != nil && depth < 2 && c.freshFunc(sc) {
+		if sc := ci.Common().StaticCallee(); sc != nil && depth < 3 && (c.freshFunc(sc) || pureDelegate(c, f) == ci) {
 			out = append(out, callsDeep(c, sc, depth+1)...)
 			continue
 		}
@@ -210,8 +210,51 @@ func scaleValues(c *Ctx, f *ssa.Function) (scale []ssa.Value, inv []ssa.Value) {
 			}
 		}
 	}
+	// a helper the reference record does not know: a float parameter that receives the scale (1/scale) at EVERY
+	// call site is the scale (1/scale) inside the helper
+	if c.freshFunc(f) && !scaleBusy[f] {
+		if scaleBusy == nil {
+			scaleBusy = map[*ssa.Function]bool{}
+		}
+		scaleBusy[f] = true
+		for i, p := range f.Params {
+			if !isFloat(p.Type()) {
+				continue
+			}
+			sites, nScale, nInv := 0, 0, 0
+			for _, g := range c.srcFuncs() {
+				var gs, gi []ssa.Value
+				got := false
+				for _, ci := range calls(g) {
+					if ci.Common().StaticCallee() != f || i >= len(ci.Common().Args) {
+						continue
+					}
+					if !got {
+						gs, gi = scaleValues(c, g)
+						got = true
+					}
+					sites++
+					if containsVal(gs, ci.Common().Args[i]) {
+						nScale++
+					}
+					if containsVal(gi, ci.Common().Args[i]) {
+						nInv++
+					}
+				}
+			}
+			if sites > 0 && nScale == sites {
+				scale = append(scale, p)
+			}
+			if sites > 0 && nInv == sites {
+				inv = append(inv, p)
+			}
+		}
+		delete(scaleBusy, f)
+	}
 	return
 }
+
+var scaleBusy map[*ssa.Function]bool
 
 func containsVal(vs []ssa.Value, v ssa.Value) bool {
 	for _, x := range vs {
@@ -896,7 +939,13 @@ func classifyOutStore(c *Ctx, f *ssa.Function, st *ssa.Store, base *ssa.Paramete
 				if name == "" {
 					if p, ok := call.Call.Value.(*ssa.Parameter); ok {
 						if _, isFn := p.Type().Underlying().(*types.Signature); isFn && len(call.Call.Args) == 2 && containsVal(invs, call.Call.Args[1]) {
+							if b := scaleFnParamOK(c, p); b != "" {
+								return b
+							}
 							continue // caller-supplied scale function, given 1/scale
+						}
+						if len(call.Call.Args) == 2 {
+							return fmt.Sprintf("the scale-out routine %s is called with %s, which is not the engine's 1/scale at every call site of %s", p.Name(), describeOperand(call.Call.Args[1]), c.fname(f))
 						}
 					}
 				}
@@ -1088,7 +1137,12 @@ func ruleScaleSame(c *Ctx, rule string) {
 		} else {
 			ws = skeleton(c, c.fn(p[1]))
 		}
-		c.check(strings.Join(ds, " ; ") == strings.Join(ws, " ; "), rule, fmt.Sprintf("%s:%s", rule, p[0]), d.Pos(), p[0],
+		// compared as multisets: the order in which nested call expressions are written (f(g(x)) against
+		// t := g(x); f(t)) is not what the rule is about
+		sd, sw := append([]string(nil), ds...), append([]string(nil), ws...)
+		sort.Strings(sd)
+		sort.Strings(sw)
+		c.check(strings.Join(sd, " ; ") == strings.Join(sw, " ; "), rule, fmt.Sprintf("%s:%s", rule, p[0]), d.Pos(), p[0],
 			"calls the same routines with the same constant arguments as "+p[1]+": "+strings.Join(ds, " ; "),
 			fmt.Sprintf("D wrapper calls [%s] but its 64-bit counterpart calls [%s]", strings.Join(ds, " ; "), strings.Join(ws, " ; ")),
 			"the D entry point must be the 64-bit routine applied to the quantised input: another routine, flag or fill rule gives another result")
@@ -1105,7 +1159,7 @@ func skeletonWith(c *Ctx, f *ssa.Function, bind map[*ssa.Parameter]string, depth
 	sort.SliceStable(cs, func(i, j int) bool { return cs[i].Pos() < cs[j].Pos() })
 	var out []string
 	for _, ci := range cs {
-		if sc := ci.Common().StaticCallee(); sc != nil && depth < 2 && c.freshFunc(sc) {
+		if sc := ci.Common().StaticCallee(); sc != nil && depth < 3 && (c.freshFunc(sc) || pureDelegate(c, f) == ci) {
 			b2 := map[*ssa.Parameter]string{}
 			for i, a := range ci.Common().Args {
 				if i >= len(sc.Params) {
@@ -1194,4 +1248,37 @@ func sameFieldReload(a, b ssa.Value) bool {
 		}
 	}
 	return false
+}
+
+// scaleFnParamOK: a function-typed parameter used to scale results out. In an entry point it is the caller's own
+// choice; in a helper the reference record does not know, every call site must hand it a scale-out routine or the
+// enclosing entry point's own function parameter.
+func scaleFnParamOK(c *Ctx, p *ssa.Parameter) string {
+	f := p.Parent()
+	if !c.freshFunc(f) {
+		return ""
+	}
+	idx := -1
+	for i, q := range f.Params {
+		if q == p {
+			idx = i
+		}
+	}
+	for _, g := range c.srcFuncs() {
+		for _, ci := range calls(g) {
+			if ci.Common().StaticCallee() != f || idx >= len(ci.Common().Args) {
+				continue
+			}
+			switch a := ci.Common().Args[idx].(type) {
+			case *ssa.Function:
+				if !scaleOutFns[c.fname(a)] {
+					return fmt.Sprintf("%s passes %s as the routine that scales results out", c.fname(g), c.fname(a))
+				}
+			case *ssa.Parameter:
+			default:
+				return fmt.Sprintf("%s passes %s as the routine that scales results out", c.fname(g), a.String())
+			}
+		}
+	}
+	return ""
 }
